@@ -310,7 +310,10 @@ def shared_cmd(ctx):
     if len(gv) == 2 and (gv[0] == gv[1] or any(g in ("1", "True") for g in gv)):
         ob4.refute("grants", "write and read paths are granted by %s: both can hold the shared command channel in the same cycle" % grants, None)
     elif len(set(gv)) != len(gv) or not all(re.fullmatch(r"\((\d+ == )?[\w.]*arbiter\.grant( == \d+)?\)|~?[\w.]*arbiter\.grant", g) for g in gv):
-        if len(gv) == 2 and (gv[0] == "~" + gv[1] or gv[1] == "~" + gv[0]):
+        def n1_(g):        # (X == 1) of a one-bit X is X
+            return g[1:-len(" == 1)")] if g.startswith("(") and g.endswith(" == 1)") else g
+        gn = [n1_(g) for g in gv]
+        if len(gn) == 2 and (gn[0] == "~" + gn[1] or gn[1] == "~" + gn[0]):
             pass          # one signal and its complement
         else:
             ob4.unknown("write and read paths are granted by %s: not two values of one round-robin arbiter's grant; whether they exclude each other is not decided" % grants)
